@@ -459,7 +459,29 @@ def random_history(rng, depth):
     return h
 
 
-def run_history(ctx, ex, store0, hist, label):
+def next_dirstate(cur, step, clock):
+    """The directory after the events of one step (pure)."""
+    cur = dict(cur)
+    for ev in step:
+        b = FILES[ev[1]]
+        if ev[0] == 'rm':
+            cur.pop(b, None)
+        else:
+            clock += 10
+            old = cur.get(b)
+            if ev[3] == 'same' and old:
+                mt = old[1]
+            elif ev[3] == 'old':
+                mt = old[1] - 5 if old else 50
+            else:
+                mt = clock
+            cur[b] = (RCONTENTS[ev[2]], mt)
+    return cur, clock
+
+
+def run_history(ctx, ex, store0, hist, label, avoid_drop=False):
+    """avoid_drop: a step that would contain a shadowed drop (the known finding) is replaced by an
+    empty step, so that the whole history stays inside the class the partial theorem covers."""
     d = ex.drv
     spec = ex.start(store0)
     clock = 100
@@ -468,22 +490,15 @@ def run_history(ctx, ex, store0, hist, label):
     names = set()
     verdicts = []
     for step in hist:
+        nd, nclock = next_dirstate(d.dirstate, step, clock)
+        if avoid_drop:
+            probe = spec.copy()
+            if not probe.step([(FILES.index(b), nd[b][1], d.parse(nd[b][0])) for b in sorted(nd)]):
+                step, nd, nclock = [], dict(d.dirstate), clock
+                ctx.count('history.step.replaced-to-avoid-shadowed-drop')
+        clock = nclock
+        d.sync_dir(nd)
         for ev in step:
-            b = FILES[ev[1]]
-            if ev[0] == 'rm':
-                d.remove(b)
-            else:
-                clock += 10
-                cur = d.dirstate.get(b)
-                if ev[3] == 'same' and cur:
-                    mt = cur[1]
-                elif ev[3] == 'old' and cur:
-                    mt = cur[1] - 5
-                elif ev[3] == 'old':
-                    mt = 50
-                else:
-                    mt = clock
-                d.write(b, RCONTENTS[ev[2]], mt)
             ctx.count('history.event.%s%s' % (ev[0], '.' + ev[3] if ev[0] == 'w' else ''))
         done.append([list(e) for e in step])
         view, post, exp, ok, verdict = ex.observed_scan(spec, {'label': label, 'store0': store0, 'steps': done})
@@ -495,12 +510,194 @@ def run_history(ctx, ex, store0, hist, label):
         names |= set(exp) | {p for _, _, c in view if c for p, _ in c}
         ctx.count('history.scan.' + verdict)
         if verdict != 'ok':
-            break       # afterwards the implementation has left the specification; the model is still compared below
+            break       # afterwards the implementation has left the specification
     s0 = pr_al(sorted((d.ids.name(k), d.ids.defn(v)) for k, v in d.builtin.items()), cp.z)
     ex.runs.append(('(MRun %s %s)' % (s0, cp.lst(mrun, str)), label))
     ex.sruns.append(('(SRun %s %s %s)' % (s0, cp.lst(sorted(names | {0, 1}), cp.z), cp.lst(srun, str)), label))
-    ctx.case_seen(('h', store0, freeze(hist)), nontrivial=any(hist))
+    ctx.case_seen(('h', freeze(store0), freeze(hist), avoid_drop), nontrivial=any(hist))
     return verdicts
+
+
+# ----------------------------------------------------------------------------- the parser
+PHEADER = ('From PK Require Import Monitor.ParseCases.\nFrom Coq Require Import List ZArith String.\n'
+           'Import ListNotations.\nOpen Scope string_scope.\n')
+
+OT = {'CERTIFICATE': {'LOCATE': 'ALLOW_ALL', 'GET': 'ALLOW_OWNER'}, 'SYMMETRIC_KEY': {'DESTROY': 'DISALLOW_ALL'}}
+VALID_DOCS = [
+    {},
+    {'n': {}},
+    {'n': {'CERTIFICATE': {'LOCATE': 'ALLOW_ALL'}}},
+    {'n': OT},
+    {'n': {'preset': OT}},
+    {'n': {'groups': {'g1': OT, 'g2': {'SECRET_DATA': {'GET': 'ALLOW_ALL'}}}}},
+    {'n': {'preset': {'PUBLIC_KEY': {'GET': 'ALLOW_ALL'}}, 'groups': {'g': OT}}},
+    {'default': {'CERTIFICATE': {'GET': 'DISALLOW_ALL'}}, 'm': {'preset': OT}, 'e': {}},
+    {'n': {'preset': {}}}, {'n': {'groups': {}}}, {'n': {'preset': None, 'groups': 0}}, {'n': {'preset': '', 'groups': []}},
+    {'n': {'preset': False}}, {'n': {'CERTIFICATE': {}}}, {'n': {'groups': {'g': {}}}}, {'n': {'preset': {'CERTIFICATE': {}}}},
+]
+ATOMS = [None, True, False, 0, 1, '', 'x', 'ALLOW_ALL', [], [1], ['ALLOW_ALL'], {}, {'x': 1}, {'GET': 'ALLOW_ALL'},
+         {'CERTIFICATE': {'GET': 'ALLOW_ALL'}}, {'preset': {'CERTIFICATE': {'GET': 'ALLOW_ALL'}}}]
+KEYS = ['BOGUS', 'preset', 'groups', 'CERTIFICATE', 'GET', 'ALLOW_ALL', 'certificate', '']
+
+
+def paths(v, pre=()):
+    yield pre
+    if isinstance(v, dict):
+        for k in v:
+            yield from paths(v[k], pre + (k,))
+
+
+def replace_at(v, path, new):
+    if not path:
+        return new
+    return {k: (replace_at(x, path[1:], new) if k == path[0] else x) for k, x in v.items()}
+
+
+def rename_at(v, path, newkey):
+    """rename the key path[-1] of the object at path[:-1] (keeps the position)"""
+    if len(path) == 1:
+        return {(newkey if k == path[0] else k): x for k, x in v.items()}
+    return {k: (rename_at(x, path[1:], newkey) if k == path[0] else x) for k, x in v.items()}
+
+
+def delete_at(v, path):
+    if len(path) == 1:
+        return {k: x for k, x in v.items() if k != path[0]}
+    return {k: (delete_at(x, path[1:]) if k == path[0] else x) for k, x in v.items()}
+
+
+def mutations(doc):
+    for p in paths(doc):
+        for a in ATOMS:
+            yield ('replace', p, replace_at(doc, p, a))
+        if p:
+            for k in KEYS:
+                yield ('rename', p, rename_at(doc, p, k))
+            yield ('delete', p, delete_at(doc, p))
+        node = doc
+        for k in p:
+            node = node[k]
+        if isinstance(node, dict):
+            for k in KEYS[:4]:
+                if k not in node:
+                    yield ('add', p, replace_at(doc, p, dict(node, **{k: ATOMS[14] if k != 'BOGUS' else 1})))
+
+
+def pr_json(v):
+    if v is None:
+        return 'JNull'
+    if isinstance(v, bool):
+        return '(JBool %s)' % cp.boolean(v)
+    if isinstance(v, int):
+        return '(JNum %s)' % cp.z(v)
+    if isinstance(v, str):
+        return '(JStr %s)' % cp.string(v)
+    if isinstance(v, list):
+        return '(JArr %s)' % cp.lst(v, pr_json)
+    if isinstance(v, dict):
+        return '(JObj %s)' % cp.lst(list(v.items()), lambda kv: cp.pair(cp.string(kv[0]), pr_json(kv[1])))
+    raise TypeError('no Coq form for %r' % (v,))
+
+
+def pr_ppol(d):
+    return cp.lst(list(d.items()), lambda kv: cp.pair(cp.string(kv[0].name), cp.lst(list(kv[1].items()), lambda ov: cp.pair(cp.string(ov[0].name), cp.string(ov[1].name)))))
+
+
+def pr_result(r):
+    def one(kv):
+        name, v = kv
+        pre = cp.option(v.get('preset'), pr_ppol)
+        grp = cp.option(v.get('groups'), lambda g: cp.lst(list(g.items()), lambda gv: cp.pair(cp.string(gv[0]), pr_ppol(gv[1]))))
+        extra = set(v) - {'preset', 'groups'}
+        if extra:
+            raise TypeError('unexpected section in parser result: %r' % extra)
+        return cp.pair(cp.string(name), '(Parsed %s %s)' % (pre, grp))
+    return cp.lst(list(r.items()), one)
+
+
+def parser_run(ctx, quick):
+    from kmip.core import policy, enums
+    probe = str(ctx.work / 'probe.json')
+    cases, meta = [], []
+    seen = set()
+
+    def feed(raw, label):
+        """raw: bytes written to the file.  Runs the real parser, the direct oracle, and builds the K case."""
+        if raw in seen:
+            return
+        seen.add(raw)
+        with open(probe, 'wb') as f:
+            f.write(raw)
+        try:
+            loaded = json.loads(raw.decode('utf-8'))
+            blob = ('some', loaded)
+        except Exception:
+            blob = None
+        try:
+            r = policy.read_policy_from_file(probe)
+            out = ('ok', r)
+        except ValueError:
+            out = ('valueerror', None)
+        except BaseException as e:      # noqa - the monitor would not catch this
+            out = ('other', type(e).__name__)
+        ctx.count('parser.%s.%s' % (label.split(':')[0], out[0]))
+        ctx.case_seen(('doc', raw), nontrivial=True)
+        # direct oracle: nothing but ValueError may escape; a result is a dict of well-typed sections
+        if out[0] == 'other':
+            ctx.violation({'class': 'parser-raises-other', 'exc': out[1]}, {'file_bytes': raw.decode('latin-1'), 'label': label},
+                          'read_policy_from_file raised %s (the monitor catches only ValueError) ' % out[1])
+        if out[0] == 'ok':
+            okshape = isinstance(r, dict) and all(
+                isinstance(v, dict) and set(v) <= {'preset', 'groups'} for v in r.values())
+            if okshape:
+                for v in r.values():
+                    pols = ([v['preset']] if 'preset' in v else []) + (list(v['groups'].values()) if 'groups' in v else [])
+                    for pp in pols:
+                        okshape &= all(isinstance(t, enums.ObjectType) and all(isinstance(o, enums.Operation) and isinstance(q, enums.Policy)
+                                                                            for o, q in ops.items()) for t, ops in pp.items())
+            if blob is None or not okshape:
+                ctx.violation({'class': 'parser-accepts-invalid'}, {'file_bytes': raw.decode('latin-1'), 'label': label, 'result': repr(r)[:500]},
+                              'read_policy_from_file accepted a document that is not a valid policy file')
+        try:
+            jb = 'None' if blob is None else '(Some %s)' % pr_json(blob[1])
+            ob = {'ok': lambda: '(Ok %s)' % pr_result(r), 'valueerror': lambda: 'ValueErr', 'other': lambda: 'Crash'}[out[0]]()
+        except (TypeError, ValueError):
+            ctx.count('parser.not-comparable-in-coq')
+            return
+        cases.append('(%s, %s)' % (jb, ob))
+        meta.append((label, raw[:300].decode('latin-1'), out[0]))
+
+    for i, doc in enumerate(VALID_DOCS):
+        feed(json.dumps(doc).encode(), 'valid:%d' % i)
+        for kind, path, m in mutations(doc):
+            feed(json.dumps(m).encode(), 'mut-%s:%d:%s' % (kind, i, '/'.join(path)))
+    # text level
+    text = json.dumps(VALID_DOCS[6])
+    for cut in range(0, len(text), 1 if not quick else 3):
+        feed(text[:cut].encode(), 'text-truncated:%d' % cut)
+    for raw, label in [(b'', 'text:empty'), (b'   \n', 'text:blank'), (text.encode() + b' x', 'text:trailing'), (b'\xff\xfe{}', 'text:not-utf8'),
+                       (b'{"n": {"CERTIFICATE": {"GET": "ALLOW_ALL"}}, "n": {}}', 'text:duplicate-key'),
+                       (b'{"n": {"preset": NaN}}', 'text:nan'), (b'{"n": {"preset": 1.5}}', 'text:float'),
+                       (b'[' * 100000 + b']' * 100000, 'text:deep-nesting'),
+                       (b'{"n": {"CERTIFICATE": {"GET": "ALLOW_ALL", "GET": "BOGUS"}}}', 'text:duplicate-op')]:
+        feed(raw, label)
+    # second order: two random mutations
+    rng = ctx.subrng('parser')
+    for _ in range(300 if quick else 5000):
+        doc = rng.choice(VALID_DOCS[2:])
+        for _ in range(2):
+            ms = list(mutations(doc)) if isinstance(doc, dict) else []
+            if not ms:
+                break
+            doc = rng.choice(ms)[2]
+        feed(json.dumps(doc).encode(), 'mut2')
+    bad = ctx.run_cases('parser', PHEADER, cases, 'check_jcase',
+                        what='Parse.read_policy vs kmip.core.policy.read_policy_from_file: parsed structure or exception class')
+    for i in bad[:20]:
+        ctx.disagreement('parser', {'label': meta[i][0], 'file': meta[i][1], 'impl': meta[i][2], 'coq': cases[i][:800]})
+    ctx.sample({'parser_case': cases[len(cases) // 3][:500]})
+    os.remove(probe)
+    return len(cases)
 
 
 STORES = [{'default': 'D', 'public': 'P'}, {}, {'default': 'D'}]
@@ -530,7 +727,7 @@ def run(ctx):
             run_history(ctx, ex, s0, hist, 'corpus:' + label)
     rng = ctx.subrng('histories')
     for i in range(40 if quick else 400):
-        run_history(ctx, ex, STORES[i % 3], random_history(rng, 30), 'random:%d' % i)
+        run_history(ctx, ex, STORES[i % 3], random_history(rng, 30), 'random:%d' % i, avoid_drop=(i % 2 == 1))
     ctx.log('%d scans on the real monitor, %d distinct scan triples, %d histories' % (ex.scans, len(ex.cases), len(ex.runs)))
 
     cases = list(ex.cases)
@@ -550,6 +747,7 @@ def run(ctx):
     ctx.sample({'monitor_step_case': cases[len(cases) // 2][:600]})
     ctx.sample({'monitor_run_case': runs[-1][:600]})
     shutil.rmtree(ex.drv.dir, ignore_errors=True)
+    parser_run(ctx, quick)
 
 
 def merge_local_findings(ctx):
@@ -560,3 +758,55 @@ def merge_local_findings(ctx):
         for f in json.loads(p.read_text()):
             if f.get('property') == 'C18' and f.get('id') not in have:
                 ctx.findings.append(f)
+
+
+def replay(ctx, payload):
+    """bin/check C18 --replay <file>: run the recorded input again on the real code; exit 1 when it still fails."""
+    merge_local_findings(ctx)
+    inp = payload.get('input') or {}
+    if 'file_bytes' in inp:
+        from kmip.core import policy
+        p = str(ctx.work / 'replay.json')
+        with open(p, 'wb') as f:
+            f.write(inp['file_bytes'].encode('latin-1'))
+        try:
+            r = policy.read_policy_from_file(p)
+            print('read_policy_from_file returned', repr(r)[:300])
+            return 1 if payload.get('signature', {}).get('class') == 'parser-accepts-invalid' else 0
+        except ValueError as e:
+            print('ValueError:', e)
+            return 0
+        except Exception as e:      # noqa
+            print('still raises', type(e).__name__, e)
+            return 1
+    h = inp.get('history')
+    if h is None:
+        cands = payload.get('first_disagreeing_cases') or []
+        print('no concrete failing input in this replay file; first disagreeing correspondence cases:')
+        for c in cands[:3]:
+            print(json.dumps(c)[:1500])
+        return 2
+    ex = Explorer(ctx, 'replay')
+    ex.sruns = []
+    if isinstance(h, dict):
+        verdicts = run_history(ctx, ex, h['store0'], [[tuple(e) for e in st] for st in h['steps']], 'replay')
+    else:
+        d = ex.drv
+        spec = ex.start(STORES[0])
+        verdicts = []
+        for i, ev in enumerate(h):
+            if ev[0] == 'w':
+                d.write(FILES[ev[1]], XCONTENTS[ev[2]], 10 + i)
+            elif ev[0] == 'rm':
+                d.remove(FILES[ev[1]])
+            view, post, exp, ok, verdict = ex.observed_scan(spec, h[:i + 1])
+            print('after', ev, 'store', post and post['store'], 'expected', exp and sorted(exp.items()))
+            verdicts.append(verdict)
+            if verdict != 'ok':
+                break
+    print('verdicts per scan:', verdicts)
+    for v in ctx.violations:
+        print('FAILS:', v['what'], json.dumps(v['witness'])[:600])
+    for k, v in ctx.known_hits.items():
+        print('FAILS (known finding %s):' % k, v['what'])
+    return 1 if (ctx.violations or ctx.known_hits) else 0
